@@ -399,3 +399,60 @@ def _container_marks(loc, state):
 def _changed_containers(marks, state):
     cur_ = _container_marks({n: v for n, (v, _) in marks.items()}, state)
     return sorted(n for n, (v, m) in marks.items() if n in cur_ and cur_[n][1] != m)
+
+
+# ------------------------------------------------------------------ the appending loop
+def try_append_loop(seq, frame):
+    """`for x in S: L.append(E)` over a symbolic sequence, L an empty list made before the loop, E an
+    expression of x and of names the loop does not assign: the loop spelling of the comprehension
+    [E for x in S].  It is answered like the comprehension (pyvc/seqmodel.listcomp): L is rebound to
+    the mapped symbolic sequence and the body is not iterated.  Recognised syntactically on the source
+    of the running `for` statement; anything else is not touched (-> Unsupported by the caller).
+    -> True when applied"""
+    import ctypes
+
+    from . import front, seqmodel
+
+    node = _for_node(frame)
+    if node is None or node.orelse or len(node.body) != 1 or not isinstance(node.target, _ast.Name):
+        return False
+    st = node.body[0]
+    if not (isinstance(st, _ast.Expr) and isinstance(st.value, _ast.Call)):
+        return False
+    call = st.value
+    f = call.func
+    if not (isinstance(f, _ast.Attribute) and f.attr == "append" and isinstance(f.value, _ast.Name) and len(call.args) == 1 and not call.keywords and not isinstance(call.args[0], _ast.Starred)):
+        return False
+    lname, target, expr = f.value.id, node.target.id, call.args[0]
+    loc = frame.f_locals
+    lst = loc.get(lname)
+    if type(lst) is not list or len(lst) != 0:
+        return False
+    if lname in _loads(expr) or carried_names(node):
+        return False
+    # the loop variable must not be read after the loop (it stays unbound here)
+    try:
+        tree = _ast.parse(open(frame.f_code.co_filename).read())
+    except (OSError, SyntaxError):
+        return False
+    fn = None
+    for n in _ast.walk(tree):
+        if isinstance(n, (_ast.FunctionDef, _ast.AsyncFunctionDef)) and n.lineno <= node.lineno <= (n.end_lineno or n.lineno):
+            if fn is None or n.lineno >= fn.lineno:
+                fn = n
+    if fn is None:
+        return False
+    lo_, hi_ = node.lineno, node.end_lineno or node.lineno
+    for n in _ast.walk(fn):
+        if isinstance(n, _ast.Name) and n.id == target and not (lo_ <= n.lineno <= hi_):
+            return False
+    lam = _ast.Lambda(args=_ast.arguments(posonlyargs=[], args=[_ast.arg(arg=target)], kwonlyargs=[], kw_defaults=[], defaults=[]), body=expr)
+    lam = front._ComprehensionRewrite().visit(_ast.fix_missing_locations(_ast.Expression(body=lam)))
+    g = dict(frame.f_globals)
+    g.update(loc)
+    fun = eval(compile(_ast.fix_missing_locations(lam), frame.f_code.co_filename, "eval"), g)  # noqa: S307
+    mapped = seqmodel.listcomp(fun, seq)
+    loc[lname] = mapped
+    ctypes.pythonapi.PyFrame_LocalsToFast(ctypes.py_object(frame), ctypes.c_int(0))
+    cur().use("appending loop over a symbolic sequence answered as the comprehension it spells")
+    return True
